@@ -97,6 +97,13 @@ int sqfs_xattr_reader_load(sqfs_xattr_reader_t *xr, const sqfs_super_t *super,
 	size_t i;
 	int err;
 
+	/* cleanup pre-existing data */
+	xr->idrd = sqfs_drop(xr->idrd);
+	xr->kvrd = sqfs_drop(xr->kvrd);
+
+	free(xr->id_block_starts);
+	xr->id_block_starts = NULL;
+
 	/* sanity check */
 	if (super->flags & SQFS_FLAG_NO_XATTRS)
 		return 0;
@@ -106,13 +113,6 @@ int sqfs_xattr_reader_load(sqfs_xattr_reader_t *xr, const sqfs_super_t *super,
 
 	if (super->xattr_id_table_start >= super->bytes_used)
 		return SQFS_ERROR_OUT_OF_BOUNDS;
-
-	/* cleanup pre-existing data */
-	xr->idrd = sqfs_drop(xr->idrd);
-	xr->kvrd = sqfs_drop(xr->kvrd);
-
-	free(xr->id_block_starts);
-	xr->id_block_starts = NULL;
 
 	/* read the locations table */
 	err = file->read_at(file, super->xattr_id_table_start,
